@@ -211,6 +211,7 @@ class World:
         late = []
         for i, nd in enumerate(spec["nodes"]):
             k = nd["k"]
+            self._call_slots = set()
             with plan.scope(*nd.get("scope", [])):
                 if k == "call":
                     fn = self._make_fn(i, nd)
@@ -313,6 +314,13 @@ class World:
         slot = a.get("sh")
         if slot is None:
             return fresh
+        if slot in self._call_slots:
+            # generator invariant (specs.Gen._use_slot): all arguments of one API call are evaluated before
+            # uberjob sees any of them, so one slot used twice there has no well-defined expected value
+            from vlib.runner import Inconclusive
+
+            raise Inconclusive(f"invalid generated case: slot {slot} used twice within one API call")
+        self._call_slots.add(slot)
         o = self.shared.get(slot)
         if o is None or type(o) is not type(fresh):
             self.shared[slot] = fresh
@@ -578,6 +586,7 @@ class World:
     def output_obj(self, out):
         if out is None:
             return None, None
+        self._call_slots = set()
         return self.materialize(out)
 
     def run(self, cfg=None, output="spec", registry=True, **kw):
